@@ -376,7 +376,7 @@ def _sibc(w):
     return [1, (1 << w) - 1, 1 << (w - 1)]
 
 
-STAGED_FAMILIES = ("d1", "compose", "ext_cmp", "mem", "cond_nary")
+STAGED_FAMILIES = ("compose", "ext_cmp", "mem")
 STAGED_FAMILIES_QUICK = ("compose", "mem")
 
 
